@@ -61,6 +61,16 @@ CLAIMED["C33"] = _simple(["SigBlock", "SigBlockMC", "SigBlock_Trace"],
     "SigBlock_Trace, which decodes the written bytes with the TLA+ reader.",
     "Trusted: TLC, the zip container from Python's zipfile with the block spliced in before the central directory. Well-formed blocks only (malformed ones belong to C35); numbers < 2^31.",
     "TLA+ codec + lazy-loading query model checked with TLC (incl. expected counterexamples of implementation-shaped variants); histories replayed on real objects; answers validated by a TLA+ trace spec", "4/C33")
+CLAIMED["C35"] = _simple(["NullTerm", "ResHeader", "ChunkWalk", "ParseRun_Trace"],
+    "Three loop shapes of the parsers are transition systems with a termination measure: NullTerm (read_null_terminated_string: chunks of 128 bytes until a zero byte; buffer abstracted to length, start and "
+    "position of the first zero), ResHeader (ARSCHeader.__init__ at byte level, incl. the retry loop skipping dummy bytes) and ChunkWalk (the chunk loops of AXMLParser / ARSCParser over ResHeader's "
+    "guarantee that an accepted header declares >= 8 bytes). TLC checks termination (liveness under weak fairness) and a step bound linear (ChunkWalk: quadratic) in the buffer length on every bounded "
+    "buffer; the variants 'no end-of-buffer check' and 'any declared size accepted' must yield their counterexamples. Every NullTerm state and every (strided) ResHeader buffer is replayed into the real "
+    "function under a call budget; DEX / AXML / ARSC / APK parsers are run in forked workers on crafted files (unterminated string data, huge declared counts) and on truncation / byte / 32-bit word / fill "
+    "mutants of 13 seed files (DEX mutants with recomputed checksum), work measured in call events; ParseRun_Trace validates every run against the budget BASE + PER_BYTE * size.",
+    "Trusted: sys.setprofile call events as the measure of work (deterministic, load independent), the wall-clock alarm as a backstop only. The budget leaves a factor of ~250 above the largest work per "
+    "byte seen on any explored input; a parser slower than that by design would need the constants in ParseRun_Trace.tla revisited.",
+    "TLA+ loop models with liveness checked by TLC (incl. expected counterexamples); model states replayed into the real loop functions under a call budget; whole-parser runs validated by a TLA+ trace spec", "4/C35")
 CLAIMED["C32"] = _simple(["V1Verify", "V1VerifyMC", "V1Verify_Trace"],
     "V1Verify.tla models a v1 signature block with abstract cryptography (a signature is the pair of signing key and signed message; certificates [issuer, serial, key]; signer infos with optional signed "
     "attributes) and get_certificate_der as a step machine (next signer info, find the referenced certificate, check the attributes against the .SF digest, verify the signature); TLC checks on every block "
